@@ -450,7 +450,7 @@ static void drv_step(struct cmd *c)
 				if (n > MAXLEN) n = MAXLEN;
 				frame[0] = (uint8_t) n;
 				memcpy(frame + 1, d, n);
-				r = send(s->peer, frame, n + 1, MSG_NOSIGNAL) == (ssize_t) (n + 1) ? 0 : -2;
+				r = send(s->peer, frame, n + 1, MSG_NOSIGNAL | MSG_DONTWAIT) == (ssize_t) (n + 1) ? 0 : -2;
 			}
 			else {
 				uint8_t frame[2 * MAXLEN + 8];
@@ -459,7 +459,7 @@ static void drv_step(struct cmd *c)
 				if (n > MAXLEN) n = MAXLEN;
 				fl = cobs_frame(d, n, frame);
 				ioctl(s->fd, FIONREAD, &before);
-				r = send(s->peer, frame, fl, MSG_NOSIGNAL) == (ssize_t) fl ? 0 : -2;
+				r = send(s->peer, frame, fl, MSG_NOSIGNAL | MSG_DONTWAIT) == (ssize_t) fl ? 0 : -2;
 				if (!r && ioctl(s->fd, FIONREAD, &after) >= 0 && s->nwire < 512) {
 					s->wire_total += after - before;
 					s->wire_end[s->nwire++] = s->wire_total;
